@@ -563,6 +563,41 @@ func init() {
 			c.Errf("wire: InputRequestMap.UnmarshalJSON not found")
 		}
 
+		// scanEventsT: what is done to a line before it is looked at (the model's `trimRightCRLF`: a line
+		// ended by CRLF must come out like one ended by LF — sse_eol_irrelevant)
+		if fd := c.Func("mcp", "", "scanEventsT"); fd != nil && fd.Body != nil {
+			var lineStmts []string
+			ast.Inspect(fd.Body, func(n ast.Node) bool {
+				as, ok := n.(*ast.AssignStmt)
+				if ok && len(as.Lhs) >= 1 && c.Src(as.Lhs[0]) == "line" {
+					lineStmts = append(lineStmts, c.Src(as))
+				}
+				return true
+			})
+			c.Fact("wire.sse_line_statements", lineStmts)
+		} else {
+			c.Errf("wire: scanEventsT not found")
+		}
+		// paginateList: the returns and the call that installs the (non-nil) list, in source order — every
+		// `return res, nil` stands behind `setFunc(res, features)` (the model's listPage: required_lists_present_paged)
+		if fd := c.Func("mcp", "", "paginateList"); fd != nil && fd.Body != nil {
+			var seq []string
+			ast.Inspect(fd.Body, func(n ast.Node) bool {
+				switch x := n.(type) {
+				case *ast.ReturnStmt:
+					seq = append(seq, c.Src(x))
+				case *ast.CallExpr:
+					if c.Src(x.Fun) == "setFunc" {
+						seq = append(seq, c.Src(x))
+					}
+				}
+				return true
+			})
+			c.Fact("wire.paginate_returns", seq)
+		} else {
+			c.Errf("wire: paginateList not found")
+		}
+
 		b.WriteString("\nend Generated.Wire\n")
 		c.Lean["WireGen"] = b.String()
 	})
